@@ -983,6 +983,15 @@ fn run_desc(w: &World, seed: u64, nbase: usize, mapid: &mut usize) {
                         leaves.push(Arc::new(m));
                     }
                 }
+                // the same script in several branches (seeded change C20-11: a walker that skips a
+                // leaf equal to one already visited): every third tree repeats one of its leaves,
+                // alternately as the same Arc and as a separately built equal value
+                if !leaves.is_empty() && round % 3 == 0 {
+                    let i = rng.below(leaves.len() as u64) as usize;
+                    let dup = if round % 2 == 0 { Arc::clone(&leaves[i]) } else { Arc::new((*leaves[i]).clone()) };
+                    let at = rng.below(leaves.len() as u64 + 1) as usize;
+                    leaves.insert(at, dup);
+                }
                 let ik = rng.below(6) as usize;
                 descs.extend(Descriptor::new_tr(w.key(ik, true), tap_tree(&leaves, rng.below(27))).ok());
             }
